@@ -366,3 +366,222 @@ Print Assumptions C10_fs_free_chain_inv16.
 Print Assumptions C10_fs_stats_exact16.
 Print Assumptions C10_fat12_wide_data_refuted.
 Print Assumptions C10_fat32_wide_data_refuted.
+
+(* ================================================================================================================
+   WHOLE IMAGES: "after every API call all copies of the allocation table are byte-identical; the two reserved leading entries
+   keep their bytes" (Proofs/VolFrameProofs.v).
+
+   Vocabulary.
+     img_copies_equal g im   = every byte of every FAT copy k < g_fats g equals the byte of copy 0 - exactly what the extracted
+                               decoder check Abs.fat_copies_equal computes (C10_vol_copies_equal_is_decoder_check);
+     reserved_kept g im im'  = the bytes of FAT entries 0 and 1 (3 bytes on FAT12, 4 on FAT16, 8 on FAT32) of EVERY copy are the same;
+     FatKept g im im'        = (img_copies_equal g im -> img_copies_equal g im') /\ reserved_kept g im im'   (C10_vol_fat_kept_means);
+     StoreKept g im im'      = the same at the level of the library's FAT DiskSlice ([store_of g im]: all mirrored copies, or the
+                               active copy alone when mirroring is off), for ANY sane geometry and all three widths.
+   Any number of copies >= 1 ([fixed_root_geom] asks 1 <= g_fats g, the BPB field allows up to 255).
+   Every [Confined] theorem of Props/C11.v (all operations, all runs) contains [FatKept] (C10_vol_confined_keeps_fat); the
+   theorems below restate it function by function. *)
+
+From Coq Require Import FMapPositive.
+From FatVerif Require Import Spec.Abs Spec.Regions Model.Str Model.Time Model.FileM Model.Name Model.ShortName Model.DirSlots Model.Flags
+  Model.VolDir Model.VolChainDir Model.VolFile Model.FlushM Model.VolSession Model.VolSession2 Model.VolRemove Model.VolStatus
+  Spec.ByteFile Proofs.TableProofs Proofs.FileProofs Proofs.DirSlotsProofs Proofs.VolDirProofs Proofs.VolDirFormat
+  Proofs.VolFileProofs Proofs.VolSessionProofs Proofs.VolSession2Proofs Proofs.VolRemoveProofs Proofs.VolStatusProofs
+  Proofs.VolChainDirProofs Proofs.VolSessionExamples Proofs.VolSession2Examples Proofs.VolRemoveExamples
+  Proofs.VolStatusExamples Proofs.VolFrameProofs Proofs.VolFrameExamples.
+From FatVerif Require Spec.Wf Model.Lfn Proofs.TimeProofs.
+Import ListNotations.
+
+Theorem C10_vol_copies_equal_is_decoder_check :
+    forall (g : geom) (im : image), fat_copies_equal g im = true <-> img_copies_equal g im.
+Proof. exact fat_copies_equal_iff. Qed.
+
+Theorem C10_vol_fat_kept_means :
+    forall (g : geom) (im im' : image),
+    FatKept g im im' <->
+    ((forall k j : N,
+      k < g_fats g -> j < g_fat_bytes g -> img_get im (g_fat_off g k + j) = img_get im (g_fat_off g 0 + j)) ->
+     forall k j : N,
+     k < g_fats g -> j < g_fat_bytes g -> img_get im' (g_fat_off g k + j) = img_get im' (g_fat_off g 0 + j)) /\
+    (forall k j : N,
+     k < g_fats g ->
+     j < reserved_len (ft_of g) -> img_get im' (g_fat_off g k + j) = img_get im (g_fat_off g k + j)).
+Proof. exact fat_kept_means. Qed.
+
+Theorem C10_vol_confined_keeps_fat :
+    forall (g : geom) (im0 : image) (own : list N) (status : bool) (im : image),
+    Confined g im0 own status im -> FatKept g im0 im.
+Proof. exact confined_fat_kept. Qed.
+
+(* ---- the FAT writes themselves: any sane geometry (FAT12/16/32), mirroring on or off *)
+(* File::{read,write,seek,truncate}: allocation, linking, truncation, freeing *)
+Theorem C10_vol_file_step_store_kept :
+    forall g : geom,
+    vgeom_ok g ->
+    forall (im : image) (fi : fsinfo) (h : fhandle) (sz : N) (l : list N) (op : fop) (im' : image) 
+      (fi' : fsinfo) (h' : fhandle) (r : fresult),
+    VolInv g im fi h sz l -> vol_step g (im, fi, h) op = (im', fi', h', r) -> StoreKept g im im'.
+Proof. exact vol_step_store_kept. Qed.
+
+(* FileSystem::free_cluster_chain (remove) *)
+Theorem C10_vol_free_chain_store_kept :
+    forall g : geom,
+    vgeom_ok g ->
+    forall (im : image) (fi : fsinfo) (c : N) (l : list N) (im1 : image) (fi1 : fsinfo),
+    FatProofs.bytes_ok im ->
+    fi_inv fstore (val_ft (ft_of g)) (store_of g im) fi (g_clusters g) ->
+    c <> 0 ->
+    chain_from g im c (Abs.chain_fuel g) = Some l ->
+    NoDup l -> vol_free_chain g im fi c = Ok (im1, fi1) -> StoreKept g im im1.
+Proof. exact vol_free_chain_store_kept. Qed.
+
+(* with mirroring the store covers every copy *)
+Theorem C10_vol_store_kept_is_fat_kept :
+    forall (g : geom) (im im' : image), g_mirroring g = true -> StoreKept g im im' -> FatKept g im im'.
+Proof. exact store_kept_fat_kept. Qed.
+
+(* a file call writes no byte of the FAT region outside the store's copies ... *)
+Theorem C10_vol_file_step_fat_region_frame :
+    forall g : geom,
+    vgeom_ok g ->
+    forall (im : image) (fi : fsinfo) (h : fhandle) (sz : N) (l : list N) (op : fop) (im' : image) 
+      (fi' : fsinfo) (h' : fhandle) (r : fresult),
+    op_ok op ->
+    VolInv g im fi h sz l ->
+    vol_step g (im, fi, h) op = (im', fi', h', r) ->
+    forall a : N, a < g_root_off g -> ~ in_store_area g a -> img_get im' a = img_get im a.
+Proof. exact vol_step_fat_region_frame. Qed.
+
+(* ... so with mirroring DISABLED every copy but the active one keeps every byte *)
+Theorem C10_vol_inactive_copies_untouched :
+    forall g : geom,
+    vgeom_ok g ->
+    forall (im : image) (fi : fsinfo) (h : fhandle) (sz : N) (l : list N) (op : fop) (im' : image) 
+      (fi' : fsinfo) (h' : fhandle) (r : fresult),
+    op_ok op ->
+    VolInv g im fi h sz l ->
+    vol_step g (im, fi, h) op = (im', fi', h', r) ->
+    g_mirroring g = false ->
+    forall k j : N,
+    k < g_fats g ->
+    k <> g_active g -> j < g_fat_bytes g -> img_get im' (g_fat_off g k + j) = img_get im (g_fat_off g k + j).
+Proof. exact vol_step_inactive_copies_untouched. Qed.
+
+(* ---- FAT12/16 images, function by function *)
+Theorem C10_vol_create_keeps_fat :
+    forall (upper : N -> list N) (oem : N -> N) (im : image) (name : str) (now : datetime)
+      (r : res (option (N * N))) (im' : image),
+    fixed_root_geom (parse_geom im) ->
+    vol_create_empty_file_root upper oem im name now = (r, im') -> FatKept (parse_geom im) im im'.
+Proof. exact vol_create_fat_kept. Qed.
+
+Theorem C10_vol_remove_empty_keeps_fat :
+    forall (upper : N -> list N) (oem : N -> N) (im : image) (name : str) (r : res unit) (im' : image),
+    fixed_root_geom (parse_geom im) ->
+    vol_remove_empty_file_root upper oem im name = Some (r, im') -> FatKept (parse_geom im) im im'.
+Proof. exact vol_remove_empty_fat_kept. Qed.
+
+Theorem C10_vol_rename_keeps_fat :
+    forall (upper : N -> list N) (oem : N -> N) (im : image) (src dst : str) (r : res unit) (im' : image),
+    fixed_root_geom (parse_geom im) ->
+    vol_rename_in_root upper oem im src dst = Some (r, im') -> FatKept (parse_geom im) im im'.
+Proof. exact vol_rename_fat_kept. Qed.
+
+Theorem C10_vol_file_step_keeps_fat :
+    forall (g : geom) (im : image) (fi : fsinfo) (h : fhandle) (sz : N) (l : list N) (op : fop) 
+      (im' : image) (fi' : fsinfo) (h' : fhandle) (r : fresult),
+    fixed_root_geom g ->
+    VolInv g im fi h sz l -> vol_step g (im, fi, h) op = (im', fi', h', r) -> FatKept g im im'.
+Proof. exact vol_step_fat_kept. Qed.
+
+Theorem C10_vol_remove_file_keeps_fat :
+    forall (upper : N -> list N) (oem : N -> N) (fold : list N -> list N) (im : image) 
+      (fi : fsinfo) (name : str) (ev : Lfn.entry_view),
+    let g := parse_geom im in
+    fixed_root_geom g ->
+    FatProofs.bytes_ok im ->
+    fi_inv fstore (val_ft (ft_of g)) (store_of g im) fi (g_clusters g) ->
+    Wf.wf_issues fold im = [] ->
+    Forall attrs_sane (root_region_slots g im) ->
+    root_lookup upper oem im name = Ok ev ->
+    Lfn.ev_is_dir ev = false ->
+    list_eqb (Lfn.ev_raw_name ev) DOT || list_eqb (Lfn.ev_raw_name ev) DOTDOT = false ->
+    exists (im' : image) (fi' : fsinfo),
+      vol_remove_file_root upper oem im fi name = Some (Ok tt, im', fi') /\ FatKept g im im'.
+Proof. exact vol_remove_file_fat_kept. Qed.
+
+(* any run of calls / flushes / drops on any number of handles *)
+Theorem C10_session2_run_keeps_fat :
+    forall (g : geom) (acc : bool) (ops : list s2op) (st : s2state) (gs : list ghost) 
+      (es : list entry) (ls : list (list N)),
+    fixed_root_geom g ->
+    Forall s2op_ok ops -> Sess2Inv g st gs es ls -> FatKept g (s2_im st) (s2_im (fst (s2_run g acc st ops))).
+Proof. exact s2_run_fat_kept. Qed.
+
+(* the whole session from mount *)
+Theorem C10_session2_keeps_fat :
+    forall (upper : N -> list N) (oem : N -> N) (g : geom) (acc : bool) (im : image) (fi : fsinfo)
+      (reqs : list (str * datetime)) (ops : list s2op) (st : s2state) (rs : list fresult),
+    fixed_root_geom g ->
+    parse_geom im = g ->
+    FatProofs.bytes_ok im ->
+    fi_inv fstore (val_ft (ft_of g)) (store_of g im) fi (g_clusters g) ->
+    v_root_issues (abs im) = [] ->
+    Forall (fun q : str * datetime => TimeProofs.datetime_valid (snd q) = true) reqs ->
+    Forall s2op_ok ops -> vol_session2 upper oem acc im fi reqs ops = Some (st, rs) -> FatKept g im (s2_im st).
+Proof. exact vol_session2_fat_kept. Qed.
+
+(* one mounted session, after every stage *)
+Theorem C10_vol_mounted_session_keeps_fat :
+    forall (g : geom) (upper : N -> list N) (oem : N -> N) (acc : bool) (im : image) (fi : fsinfo) 
+      (name : str) (now : datetime) (ops : list (fop * datetime)) (st1 : sstate) (s1 : fstat) 
+      (st2 : sstate) (s2 : fstat) (rs : list fresult),
+    fixed_root_geom g ->
+    parse_geom im = g ->
+    FatProofs.bytes_ok im ->
+    fi_inv fstore (val_ft (ft_of g)) (store_of g im) fi (g_clusters g) ->
+    v_root_issues (abs im) = [] ->
+    TimeProofs.datetime_valid now = true ->
+    Forall op_ok (map fst ops) ->
+    clocks_ok ops ->
+    sesss_create upper oem im fi (vol_mount_status g im) name now = Some (st1, s1) ->
+    sesss_run g acc st1 s1 ops = (st2, s2, rs) ->
+    FatKept g im (s_im st1) /\
+    FatKept g im (s_im st2) /\
+    FatKept g im (s_im (fst (sesss_flush g st2 s2))) /\
+    FatKept g im (fst (vol_unmount g (s_im (fst (sesss_flush g st2 s2))) s2)).
+Proof. exact mounted_session_fat_kept. Qed.
+
+(* non-vacuity (64-sector FAT12 image, two copies): equal before and after the two-file session; reserved bytes F8 FF FF kept *)
+Example C10_vol_example_session2 :
+    changed_regions ex_vol_im ex2_final =
+    [RFat 0; RFat 1; RRoot; RCluster 2 OFree; RCluster 3 OFree; RCluster 4 OFree; RCluster 5 OFree] /\
+    length
+      (changed_offs ex_vol_im ex2_final
+         (Init.Nat.of_num_uint
+            (Number.UIntDecimal (Decimal.D3 (Decimal.D5 (Decimal.D0 (Decimal.D0 (Decimal.D0 Decimal.Nil)))))))) =
+    1133%nat /\
+    fat_copies_equal (parse_geom ex_vol_im) ex_vol_im = true /\
+    fat_copies_equal (parse_geom ex_vol_im) ex2_final = true /\
+    img_read ex2_final 512 3 = img_read ex_vol_im 512 3 /\
+    img_read ex2_final 1024 3 = img_read ex_vol_im 1024 3 /\
+    g_volume_bytes (parse_geom ex_vol_im) = 32768 /\ reserved_len (ft_of (parse_geom ex_vol_im)) = 3.
+Proof. exact exf_session2_regions. Qed.
+
+Print Assumptions C10_vol_copies_equal_is_decoder_check.
+Print Assumptions C10_vol_fat_kept_means.
+Print Assumptions C10_vol_confined_keeps_fat.
+Print Assumptions C10_vol_file_step_store_kept.
+Print Assumptions C10_vol_free_chain_store_kept.
+Print Assumptions C10_vol_store_kept_is_fat_kept.
+Print Assumptions C10_vol_file_step_fat_region_frame.
+Print Assumptions C10_vol_inactive_copies_untouched.
+Print Assumptions C10_vol_create_keeps_fat.
+Print Assumptions C10_vol_remove_empty_keeps_fat.
+Print Assumptions C10_vol_rename_keeps_fat.
+Print Assumptions C10_vol_file_step_keeps_fat.
+Print Assumptions C10_vol_remove_file_keeps_fat.
+Print Assumptions C10_session2_run_keeps_fat.
+Print Assumptions C10_session2_keeps_fat.
+Print Assumptions C10_vol_mounted_session_keeps_fat.
+Print Assumptions C10_vol_example_session2.
